@@ -148,6 +148,7 @@ type vfSM struct {
 	toks       map[uint64]*vfTokInfo
 	nextTok    uint64
 	preMap     map[uint64]uint64 // the map's keys right before an insert is applied
+	bigCost    bool              // a Set with an explicit cost above vfRoomyMaxCost was issued
 	realigned  bool              // alignFifo dropped reference entries in this step
 	bufBefore  int               // len(setBuf) right before a direct client Set (-1: unknown, e.g. a Set issued from inside a callback)
 	nowhere    map[uint64]uint64 // key -> value whose Set returned true although it found no place in the write buffer (new key, no ttl)
